@@ -39,5 +39,11 @@ func expectedCosts() costs {
 		CPop:          2,
 		CCreatePre:    6*step + step + cfg.CopyGas*uint64((initSz+31)/32) + cfg.CreateGas,
 		CDeposit:      32 * cfg.CreateDataGas,
+		CFee:          fee,
+		CNewAcct:      cfg.CallNewAccountGas,
+		CPc1:          cfg.EcrecoverGas,
+		CPc2:          cfg.Sha256BaseGas,
+		CPc3:          cfg.Ripemd160BaseGas,
+		CPc4:          cfg.IdentityBaseGas,
 	}
 }
